@@ -1193,7 +1193,7 @@ type Hist7 struct {
 
 func genHist7(r *rng) *Hist7 {
 	g := &gen7{r}
-	h := &Hist7{Spec: EngineSpec{pickBackend(r), true, 0}}
+	h := &Hist7{Spec: EngineSpec{pickBackend(r), true, 0, false}}
 	h.A = g.env()
 	withFuns := r.chance(0.08)
 	if withFuns {
